@@ -65,6 +65,11 @@ def check(ctx):
         else:
             crit = PWL()
         case["param"] = a
+        if which == "eloss_default" and max(abs(float(v)) for c in shifted for v in c) * a > 600.0:
+            # exp(-a x) leaves the float64 range: the criterion itself under/overflows (loss 0 or inf), which is outside the
+            # model (DESIGN 5.4 "unmodelled"); such samples are counted, not evaluated
+            ctx.stats["float_range_exceeded"] += 1
+            continue
         ctx.stats[f"which={which}"] += 1
         ctx.stats[f"kind={smp['kind']}"] += 1
         ctx.stats[f"cols={'multi' if M > 1 else 'single'}"] += 1
